@@ -202,6 +202,9 @@ def _flag_ok(prog, body, arg, recv, depth=0):
         return True if same else "other-state:%s vs %s" % (sig(a[2][0]), sig(recv))
     if a[0] == "const":
         return False
+    if a[0] == "phi" and any(x[0] == "const" for x in a[1]) and any(x[0] != "const" for x in a[1]):
+        # `flag && other` / `other && flag` / `flag || other`: a join of a constant with something else — the count is switched by a further condition
+        return "combined:" + sig(a)[:120]
     if a[0] == "call" and a[1].split("::")[-1].startswith("tip_") and "UnsealedState" in a[1]:
         return False                     # another activation predicate (tip_901, tip_909, ..): the counts are kept from TIP-906 on, no other height
     if a[0] == "param" and depth < 3:
@@ -212,6 +215,9 @@ def _flag_ok(prog, body, arg, recv, depth=0):
                 if mir.callee_id(t) == body.id:
                     e = cb.rec_call(t, bi)
                     res.append(_flag_ok(prog, cb, e[2][a[1] - 1], e[2][0], depth + 1))
+        comb = [x for x in res if isinstance(x, str) and x.startswith("combined:")]
+        if comb:
+            return comb[0]
         if res and all(x is True or (isinstance(x, str)) for x in res):
             return True
         if any(x is False for x in res):
@@ -239,6 +245,9 @@ def r3_flag_provenance(ctx):
             r.ok(key, "flag = %s" % sig(flag), b.where(bi))
         elif res is False:
             r.violation(key, "flag is %s, not tip_906() of the owning state" % sig(flag), b.where(bi))
+        elif isinstance(res, str) and res.startswith("combined:"):
+            r.violation(key, "the count flag is TIP-906 combined with another condition (%s): with TIP-906 active some coins are %s without the count following" %
+                        (res[len("combined:"):], "inserted" if which == "insert_coin" else "removed"), b.where(bi))
         elif isinstance(res, str):
             r.violation(key, "flag belongs to another state (%s)" % res, b.where(bi))
         else:
